@@ -156,6 +156,8 @@ class EvaluateImpl(GraphKernel):
         ctx.store[(g.oid, "parent_calls")] = z3.IntVal(0)
         ctx.store[(g.oid, "parent_when")] = z3.Int("parent_when0")
         ctx.store[(g.oid, "pup")] = z3.BoolVal(False)
+        ctx.store[(g.oid, "flag")] = z3.Bool("push_update_pending_flag0")   # the executor's push_update_pending
+        ctx.store[(g.oid, "marked")] = z3.BoolVal(False)                    # a push node re-marked it after the last reset
         ctx.store[(g.oid, "throw_index")] = z3.IntVal(-1)
         self.pq = PushQueueObj(name="push_queue")
         # a paused (resumable) cycle: cursor strictly inside, not failed, same time, prefix already folded
@@ -200,14 +202,26 @@ class EvaluateImpl(GraphKernel):
                 return lambda I, o, a, n: self.pq
         if isinstance(obj, PushQueueObj) and name == "reset_push_update_pending":
             return self.pq_reset
+        if isinstance(obj, PushQueueObj) and name == "is_push_update_pending":
+            return lambda I, o, a, n: self.gget(I.ctx, "flag")
+        if isinstance(obj, PushQueueObj) and name == "mark_push_update_pending":
+            return self.pq_mark
         return GraphKernel.method_handler(self, obj, name, node)
 
     def pq_reset(self, I, o, a, n):
+        """contract proved on realtime_reset_push_update_pending_impl: returns the old flag and clears it"""
         ctx = I.ctx
         self.gset(I, "resets", self.gget(ctx, "resets") + 1)
-        pup = ctx.fresh("push_update_pending", "bool")
+        pup = self.gget(ctx, "flag")
         self.gset(I, "pup", pup)
+        self.gset(I, "flag", z3.BoolVal(False))
+        self.gset(I, "marked", z3.BoolVal(False))
         return pup
+
+    def pq_mark(self, I, o, a, n):
+        self.gset(I, "flag", z3.BoolVal(True))
+        self.gset(I, "marked", z3.BoolVal(True))
+        return VOID
 
     def nv_evaluate(self, I, o, a, n):
         """rely contract of NodeView::evaluate for node o.index at time a[0]"""
@@ -236,6 +250,10 @@ class EvaluateImpl(GraphKernel):
         ctx.write(gs.loc("next_scheduled_time"), nst1)
         ctx.assume(rely_R(s0, nst0, s1, nst1, self.Tn, gs.n))
         ctx.assume(nst1 <= MAX_DT)
+        # a push source whose queue still holds values re-marks the executor's pending flag (push_source_eval)
+        rem = ctx.fresh("push_node_remarks", "bool")
+        self.gset(I, "flag", z3.Or(self.gget(ctx, "flag"), rem))
+        self.gset(I, "marked", z3.Or(self.gget(ctx, "marked"), rem))
         k = ctx.choose(2, "node.evaluate outcome")
         if k == 0:
             return ctx.fresh("completed", "bool")
@@ -272,6 +290,8 @@ class EvaluateImpl(GraphKernel):
             z3.ForAll([qj], z3.Implies(z3.And(lo <= qj, qj < cur, turn[qj] == T), evc[qj] == 1))
         yield "normal-nodes-only-if-due[C01]", \
             z3.ForAll([qj], z3.Implies(z3.And(qj >= self.first, evc[qj] == 1), turn[qj] == T))
+        yield "re-marks-survive[C16 a re-arm made while draining is never wiped]", z3.Implies(self.gget(ctx, "marked"),
+                                                                                                  self.gget(ctx, "flag"))
         yield "no-parent-call-yet", self.gget(ctx, "parent_calls") == 0
         yield "no-throw-yet", self.gget(ctx, "throw_index") == -1
         for x in self.extra_main_inv(I, ctx):
@@ -283,7 +303,8 @@ class EvaluateImpl(GraphKernel):
     def main_frame(self, I, ctx):
         gs = self.gs
         return [Loc(gs.sched_key), gs.loc("next_scheduled_time"), gs.loc("evaluation_cursor"),
-                gs.loc("evaluation_failed"), Loc((self.g.oid, "throw_index")),
+                gs.loc("evaluation_failed"), Loc((self.g.oid, "throw_index")), Loc((self.g.oid, "flag")),
+                Loc((self.g.oid, "marked")),
                 Loc((self.g.oid, "ev_cnt")), Loc((self.g.oid, "visited")), Loc((self.g.oid, "turn"))]
 
     # ---------------- postconditions
@@ -393,6 +414,7 @@ class EvaluateImplRoot(EvaluateImpl):
             z3.ForAll([qj], z3.Implies(z3.And(0 <= qj, qj < idx, z3.Or(pup, turn[qj] == T)), evc[qj] == 1))
         yield "flag-reset-once[C16]", self.gget(ctx, "resets") == 1
         yield "pup-is-the-value-read", pup == self.local(I, "push_update_pending")
+        yield "re-marks-survive[C16]", z3.Implies(self.gget(ctx, "marked"), self.gget(ctx, "flag"))
         yield "no-throw-yet", z3.And(self.gget(ctx, "throw_index") == -1, self.gget(ctx, "parent_calls") == 0)
 
 
@@ -420,6 +442,9 @@ class EvaluateImplRoot(EvaluateImpl):
         fresh = z3.Not(self.resumable)
         ctx.oblige("ensures.push-flag-reset-once-per-fresh-cycle-with-push-nodes[C16]",
                    self.gget(ctx, "resets") == z3.If(z3.And(fresh, self.first > 0), 1, 0), kind="post-normal")
+        ctx.oblige("ensures.a-re-mark-made-during-the-cycle-is-still-set-at-the-end[C16 every accepted value is delivered: "
+                   "the consumer's re-arm is never wiped]",
+                   z3.Implies(self.gget(ctx, "marked"), self.gget(ctx, "flag")), kind="post-normal")
         ctx.oblige("ensures.every-push-node-evaluated-when-the-flag-was-set[C16]",
                    z3.Implies(z3.And(fresh, self.first > 0, pup),
                               z3.ForAll([qj], z3.Implies(z3.And(0 <= qj, qj < self.first), evc[qj] == 1))),
